@@ -57,15 +57,16 @@ pub fn eval(op: &str, a: &[&str]) -> Option<String> {
                 (None, _) => "(err)".into(),
             }
         }
-        "c10.annotate" => {
+        "c10.annotate" | "c10.annotate.blob" => {
             let p = a[0] == "1"; let env = env_from_sx(a[1]); let t = T::from_sx(&sx::parse(a[2])); let v = V::from_sx(&sx::parse(a[3]));
-            match v.to_idl().annotate_type(p, &to_env(&env), &t.to_type()) { Ok(w) => format!("(ok {})", V::from_idl(&w).sx()), Err(_) => "(err)".into() }
+            let iv = if op.ends_with(".blob") { v.to_idl_blob() } else { v.to_idl() };
+            match iv.annotate_type(p, &to_env(&env), &t.to_type()) { Ok(w) => format!("(ok {})", V::from_idl(&w).sx()), Err(_) => "(err)".into() }
         }
-        "p.c10.roundtrip" | "p.c10.roundtrip.ref-over-record-cycle" => {
+        "p.c10.roundtrip" | "p.c10.roundtrip.ref-over-record-cycle" | "p.c10.roundtrip.blob" => {
             // v : t  =>  annotate keeps it, typed encoding then decoding at t (and with no expected type) returns it
             let env = env_from_sx(a[0]); let t = T::from_sx(&sx::parse(a[1])); let v = V::from_sx(&sx::parse(a[2]));
             let te = to_env(&env); let ty = t.to_type();
-            let iv = v.to_idl();
+            let iv = if op.ends_with(".blob") { v.to_idl_blob() } else { v.to_idl() };
             let an = match iv.annotate_type(true, &te, &ty) { Ok(w) => w, Err(e) => return Some(format!("FAIL annotate rejects an inhabitant: {}", e)) };
             if V::from_idl(&an) != v { return Some("FAIL annotate changes the value".into()); }
             let an2 = match iv.annotate_type(false, &te, &ty) { Ok(w) => w, Err(e) => return Some(format!("FAIL annotate(false) rejects an inhabitant: {}", e)) };
@@ -183,6 +184,27 @@ fn nat_for_int(env: &Env, v: &V, t: &T, fuel: u32) -> V {
 
 pub fn generate(prop: &str, thorough: bool, r: &mut Rng, em: &mut Emit) {
     let scale = if thorough { 15 } else { 1 };
+    if prop == "C10" {
+        // byte vectors whose element type is nat8 only through chains of definitions, in both value representations
+        let env: Env = vec![("byte".into(), T::p("nat8")), ("octet".into(), T::var("byte")), ("w".into(), T::var("octet")),
+                            ("bytes".into(), T::vec(T::var("w"))), ("alias".into(), T::var("bytes")), ("n16".into(), T::p("nat16"))];
+        let es = env_sx(&env);
+        let tys = [T::vec(T::p("nat8")), T::vec(T::var("byte")), T::vec(T::var("octet")), T::vec(T::var("w")), T::var("bytes"), T::var("alias"),
+                   T::opt(T::vec(T::var("octet"))), T::rec(vec![(0, T::vec(T::var("w"))), (1, T::var("alias"))]), T::vec(T::vec(T::var("octet"))), T::vec(T::var("n16"))];
+        for t in tys.iter() {
+            for _ in 0..(6 * scale) {
+                if let Some(v) = gen_val(r, &env, t, 5) {
+                    for op in ["c10.annotate", "c10.annotate.blob"] {
+                        em.case_nt(op, &["1".into(), es.clone(), t.sx(), v.sx()], true);
+                        em.case_nt(op, &["0".into(), es.clone(), t.sx(), v.sx()], true);
+                    }
+                    em.case_nt("p.c10.roundtrip", &[es.clone(), t.sx(), v.sx()], true);
+                    em.case_nt("p.c10.roundtrip.blob", &[es.clone(), t.sx(), v.sx()], true);
+                    em.stat("byte-vector-alias-chain");
+                }
+            }
+        }
+    }
     for round in 0..200 * scale {
         let cfg = GenCfg { max_depth: 2, refs: round % 4 == 0, var_bias: 4 };
         let k = r.range(0, 4) as usize;
@@ -234,6 +256,13 @@ pub fn generate(prop: &str, thorough: bool, r: &mut Rng, em: &mut Emit) {
                         em.case_nt("c10.annotate", &["1".into(), es.clone(), t.sx(), bad.sx()], true);
                         em.case_nt("c10.annotate", &["0".into(), es.clone(), t.sx(), bad.sx()], true);
                     }
+                    // vectors of nat8 handed over in the blob representation (what the text parser and the decoder produce)
+                    if v.to_idl_blob() != v.to_idl() {
+                        em.stat("blob-representation");
+                        em.case_nt("c10.annotate.blob", &["1".into(), es.clone(), t.sx(), v.sx()], true);
+                        em.case_nt("c10.annotate.blob", &["0".into(), es.clone(), t.sx(), v.sx()], true);
+                        if cls == "p.c10.roundtrip" { em.case_nt("p.c10.roundtrip.blob", &[es.clone(), t.sx(), v.sx()], true); }
+                    }
                     // annotate at a mutated type (liberal mode exercises the opt rules)
                     let t2 = mutate_type(r, t, &names, &cfg);
                     em.case_nt("c10.annotate", &["0".into(), es.clone(), t2.sx(), v.sx()], true);
@@ -247,6 +276,20 @@ pub fn generate(prop: &str, thorough: bool, r: &mut Rng, em: &mut Emit) {
                     em.case_nt("p.c04.sound", &[es.clone(), t.sx(), t1.sx(), v.sx()], true);
                     em.case_nt("p.c04.sound", &[es.clone(), t.sx(), t2.sx(), v.sx()], true);
                     em.case_nt("p.c04.chain", &[es.clone(), t.sx(), t1.sx(), t2.sx(), v.sx()], true);
+                    // supertypes by added fields whose types are optional only through names, at ids before / between / after the
+                    // wire's; and a required field added under an opt (accepted by the opt rule, answered by null)
+                    {
+                        let (defs, extras) = crate::ops::c02::optional_defs();
+                        let mut env2 = env.clone(); env2.extend(defs);
+                        let es2 = env_sx(&env2);
+                        for _ in 0..2 {
+                            let t3 = crate::ops::c02::insert_fields(r, t, &extras);
+                            if &t3 != t { em.stat("supertype.inserted-fields"); em.case_nt("p.c04.sound", &[es2.clone(), t.sx(), t3.sx(), v.sx()], true); }
+                            let t4 = T::opt(crate::ops::c02::insert_fields(r, t, &extras));
+                            em.case_nt("p.c04.sound", &[es2.clone(), T::opt(t.clone()).sx(), t4.sx(), V::Opt(Some(Box::new(v.clone()))).sx()], true);
+                            em.case_nt("p.c04.sound", &[es2.clone(), t.sx(), t4.sx(), v.sx()], true);
+                        }
+                    }
                     // the model's view of the same decode: the value must be the spec's coercion
                     if let Some(b) = encode_typed(&env, &[t.clone()], &[v.clone()]) {
                         em.case_nt("c02.decode", &[es.clone(), tys_sx(&[t1.clone()]), sx::hex(&b)], true);
